@@ -152,7 +152,9 @@ def gen_script(rng: random.Random, seed: int) -> dict:
     if rng.random() < 0.5:
         t += rng.choice([0.5, 3.0])
         ops.append([t] + change_op())
-    return {"seed": seed, "ns": ns, "settings": st, "ops": ops, "end": t + 64.0}
+    # settle long enough for every scripted request fault to be consumed (timeouts: 8 s per attempt)
+    slack = sum(int(o[4]) * 11.0 for o in ops if o[1] == "fail")
+    return {"seed": seed, "ns": ns, "settings": st, "ops": ops, "end": t + 64.0 + slack}
 
 
 def _parse_chunk(txt: str) -> tuple[str, Any]:
@@ -320,6 +322,7 @@ def oracle_stream(sc: dict, r: dict) -> list[tuple[str, dict]]:
     pauses: list[list[float | None]] = []      # [start, end|None]
     logical: list[tuple[str, str | None, float]] = []
     await_list_after_resume = False
+    outstanding = False        # a request is in flight (possibly in its retry sleeps)
     for rec in r["obs"]:
         k = rec[0]
         if k == "t":
@@ -333,6 +336,7 @@ def oracle_stream(sc: dict, r: dict) -> list[tuple[str, dict]]:
         elif k == "req":
             kind, since, t = rec[1], rec[2], rec[3]
             logical.append((kind, since, t))
+            outstanding = True
             if expect_raise:
                 fails.append(("a request was issued after an unknown ERROR event: the error was skipped",
                               {"site": "watching.continuous_watch", "shape": "unknown ERROR event not raised"}))
@@ -352,6 +356,7 @@ def oracle_stream(sc: dict, r: dict) -> list[tuple[str, dict]]:
                                           {"site": "watching.continuous_watch", "shape": "watch resumes past an undelivered change"}))
                             break
         elif k == "rsp":
+            outstanding = False
             if rec[1] == "list" and rec[2] == "ok":
                 pending_list_rv = int((rec[3] or {}).get("rv") or 0)
                 items = {}
@@ -418,6 +423,8 @@ def oracle_stream(sc: dict, r: dict) -> list[tuple[str, dict]]:
                           {"site": "watching.infinite_watch", "shape": "stream died on a recoverable fault", "fault": kind}))
     elif not r["alive"]:
         fails.append(("infinite_watch ended without an exception", {"site": "watching.infinite_watch", "shape": "stream ended"}))
+    elif outstanding:
+        pass            # the run ended in the middle of a (retried) request: not a quiescent end, nothing to compare
     elif not r["paused_at_end"]:
         final = {name: int(rv) for o_ns, name, rv in r["objects"] if ns is None or o_ns == ns}
         if first_list_rv is None:
